@@ -100,6 +100,10 @@ func (t *textScannerLexer) Next() (Token, error) {
 	typ := t.scanner.Scan()
 	text := t.scanner.TokenText()
 	pos := Position(t.scanner.Position)
+	if !t.scanner.Position.IsValid() {
+		// No token start was recorded (EOF of an empty input): use the current position, as text/scanner itself does.
+		pos = Position(t.scanner.Pos())
+	}
 	pos.Filename = t.filename
 	if t.err != nil {
 		return Token{}, t.err
